@@ -101,7 +101,7 @@ def run_c20x(case):
         return list(cls().convert(SigmaCollection.from_dicts([doc])))
     names = [FIELD_NAMES[n - 1] for n in case["names"]]
     if k in ("badcond", "filtermissing", "convnum", "validatorset", "unrefcond", "appliedids", "converr", "reflagerr", "dangling3", "attrerr",
-             "unknownvals", "tracking", "underq", "plainerr", "tmplerr", "funcid"):
+             "unknownvals", "tracking", "underq", "plainerr", "tmplerr", "funcid", "dupfields"):
         return run_errors(k, case, names)
     if k == "strict":
         pipe = ProcessingPipeline.from_dict({"name": "p", "priority": 1, "transformations": [
@@ -272,6 +272,16 @@ def run_errors(k, case, names):
         b = TextQueryTestBackend(pipe)
         out = list(b.convert(SigmaCollection.from_dicts([rule])))
         return out + [",".join(i.identifier for i in items), ",".join(sorted(pipe.applied_ids))]
+    if k == "dupfields":  # a field list and a group-by list in which two names are mapped to the same name
+        pipe = ProcessingPipeline.from_dict({"name": "p", "priority": 1, "transformations": [
+            {"type": "field_name_mapping", "mapping": {idn[0]: "same", idn[1]: "same", idn[2]: ["m1_" + idn[2], "m2_" + idn[2]]}}],
+            "postprocessing": [{"type": "template", "template": "{{ query }} | table {{ rule.fields | join(',') }}"}]})
+        base = dict(rule, name="base", fields=list(idn) + ["User", "Computer", "LogonId"])
+        corr = {"title": "c", "correlation": {"type": "event_count", "generate": True, "rules": ["base"], "group-by": list(idn) + ["User", "Computer", "LogonId"],
+                                              "timespan": "5m", "condition": {"gte": 3}}}
+        b = TextQueryTestBackend(pipe, collect_errors=True)
+        out = list(b.convert(SigmaCollection.from_dicts([base, corr])))
+        return out + [text(e) for _, e in b.errors]
     if k == "underq":
         pipe = ProcessingPipeline.from_dict({"name": "p", "priority": 1, "transformations": [{"type": "add_condition", "conditions": {"idx": "main"}}]})
         det = {"_q1": {"f": "foo"}, "_q2": {"g": "bar"}, "condition": "1 of _*q*"}
